@@ -29,6 +29,7 @@ def formatTables : FormatTables :=
     continues := SlipVerif.Gen.C09Format.continues
     params := SlipVerif.Gen.C09Format.params
     stepBack := SlipVerif.Gen.C09Format.stepBack
+    quotes := SlipVerif.Gen.C09Format.quotes
     defaultRaises := SlipVerif.Gen.C09Format.defaultRaises }
 
 def afterTilde : List Nat → Option (List Nat)
@@ -58,6 +59,7 @@ def handle (entry : String) (args : List String) : String :=
         | .finished => "ok finished"
         | .outOfFuel => "err out-of-fuel"
         | .indexFault => "err index-fault"
+        | .unmodelled => "ok unmodelled"
   | "group", [digits, commaint, hcomma] =>
     match commaint.toNat?, unhexString? hcomma with
     | some c, some comma =>
